@@ -592,6 +592,16 @@ func ResolveSpecSource(ctx context.Context, specSource interface{}) (*crew.SpecS
 			}
 			body, err = ioutil.ReadAll(resp.Body)
 			resp.Body.Close()
+			if err != nil {
+				return nil, nil, err
+			}
+		}
+		if err != nil {
+			// Couldn't read the file.
+			return nil, nil, err
+		}
+		if len(body) == 0 {
+			return nil, nil, fmt.Errorf("empty spec at %s", src.URL)
 		}
 
 		var spec core.Spec
